@@ -21,6 +21,14 @@ HC_ad == [a |-> Hdl({"create", "update"}), d |-> Hdl({"delete"})]
 Confs_ad == {Conf(HC_ad, <<"a", "d">>, "asap", 2)}
 HC_ar == [a |-> Hdl({"create", "update"}), r |-> Hdl({"resume"})]
 Confs_ar == {Conf(HC_ar, <<"a", "r">>, "asap", 2)}
+\* a creation/update handler, a mandatory deletion handler AND a daemon on the same object (the daemon's function reacts as it likes)
+Dmn(b, t) == [kind |-> "daemon", backoff |-> b, timeout |-> t, sync |-> FALSE]
+ConfD(hc, order, lc, ct, dh) == [hc |-> [h \in H |-> IF h \in DOMAIN hc THEN hc[h] ELSE None], order |-> order, lifecycle |-> lc, ctimeout |-> ct,
+                                 dh |-> dh, polling |-> 2, exitto |-> 2]
+Confs_mixed == {ConfD(HC_ad, <<"a", "d">>, "asap", 2, [d1 |-> Dmn(b, t)]) : b \in {0, 1}, t \in {0, 2}}
+Confs_mixed_a == {ConfD([a |-> Hdl({"create", "update"})], <<"a">>, "asap", 2, [d1 |-> Dmn(1, t)]) : t \in {0, 2}}
+\* witness: the daemon alone holds the object (every mandatory deletion handler is done, the finalizer is still there)
+NoHeldByDaemon == ~(obj.deleting /\ Blocked(obj) /\ Mandatory \subseteq gh.deldone /\ \E h \in DHs : Entitled(h))
 NoDoors == {}
 AllDoors == {"kill", "lost", "late", "stop"}
 LateOnly == {"late"}
